@@ -15,6 +15,7 @@ func extraTables(v *bytes.Buffer, repo string, kmd *pkgFiles) {
 	c19Tables(v, repo, kmd)
 	writeTable(v, "shared_accesses", "(function, map, kind, class, mutex held) of every access to localAuthData / vipPushCookie / pendingOauth2 / totpLocalRateLimit in non-test files of cmd/keymasterd (locks.go)", 5, sharedAccesses(kmd))
 	c09Tables(v, kmd)
+	writeTable(v, "lock_holder_passing", "(function, position, type, mode) of every receiver / parameter / result / explicit *p copy whose type is (a pointer to) a struct of cmd/keymasterd that contains a sync primitive by value (c16_copies.go); mode pointer | value", 4, lockHolderPassing(kmd))
 	writeTable(v, "shared_field_writes", "(function, field, kind, class, mutex) of every write to a field of RuntimeState that is also written after start-up (c16_fields.go); class locked | unlocked | init", 5, sharedFieldWrites(kmd))
 }
 
